@@ -51,9 +51,13 @@ def run(c):
         stats_all[fam] = stats
     # composition with the image-hash specification: every layout of MC_Pe signed over the specification's digest
     import c01
-    lay = [l for l in c01.layouts(c, "MCInit", "q", "layouts-for-signing") if '"cert":0' in l]
     if c.quick:
+        lay = [l for l in c01.layouts(c, "MCInit", "q", "layouts-for-signing") if '"cert":0' in l]
         lay = [l for k, l in enumerate(lay) if (k + c.seed) % 8 == 0]
+    else:
+        # the thorough layout space of C01 (3 sections, more sizes / trailing lengths / header positions), every third layout without a certificate table
+        lay = [l for l in c01.layouts_parallel(c, "t", "layouts-for-signing") if '"cert":0' in l]
+        lay = [l for k, l in enumerate(lay) if (k + c.seed) % 3 == 0]
     items = [(1000000 + k, '{"sc":%d,' % (1000000 + k) + l[1:]) for k, l in enumerate(lay)]
     lst = {"n": 0, "flips": 0}
 
@@ -93,7 +97,7 @@ def run(c):
                      "alone and behind a foreign signature entry; every %s covered byte of each verifying image is flipped (must stop verifying). Composition with spec/PeAuthenticode.tla: %s layout of MC_Pe without a certificate table is "
                      "built, signed by the harness over SHA-256 of the specification's ranges (honest / other key under the same issuer+serial / transplanted digest / both), "
                      "verified against A and B, and flipped at the boundaries of every covered region. distinct_nontrivial = cases the rule rejects") % (
-                         "7th" if c.quick else "single", "every 8th" if c.quick else "every")
+                         "7th" if c.quick else "single", "every 8th quick-tier" if c.quick else "every third thorough-tier")
     c.sample(json.loads([l for l in lines if '"img":"I' in l][0]))
     can = json.loads([l for l in lines if '"expect":"must"' in l and '"img":"I' in l][0]); can["sc"] = 999999999; can["expect"] = "must_not"
     r2, _ = c.run_worker("imgsym", [can], parallel=1, env=env)
